@@ -246,14 +246,16 @@ def run(chk):
             r1 = str(n1)
             r2 = r1
             if '.' in r1 and 'e' not in r1:
-                r2 = str(round(n1, ndigits=7 - r1.index('.')))
+                r2 = str(round(n1, ndigits=7 - r1.lstrip('-').index('.')))
+            t6 = '%.6e' % n1
         else:
             r1 = r2 = str(v)
+            t6 = ''
         nn = '1' if v >= 0 else '0'
-        reqs.append(f'fmtflt {ty[0]} {nn} {core.enc_str(r1)} {core.enc_str(r2)}')
+        reqs.append(f'fmtflt {ty[0]} {nn} {core.enc_str(r1)} {core.enc_str(r2)} {core.enc_str(t6)}')
         k = '-'
         if ty == 'SINGLE' and '.' in r1 and 'e' not in r1:
-            k = str(7 - r1.index('.'))
+            k = str(7 - r1.lstrip('-').index('.'))
         exps.append(f'{k} {core.enc_str(text)}')
         # oracle
         a = analyse(text)
@@ -273,17 +275,25 @@ def run(chk):
             elif letter and letter != ('E' if ty == 'SINGLE' else 'D'):
                 sig = 'exponent-letter-wrong'
             else:
+                # reading the text back gives the number the text denotes, as exactly as the type can hold it (the text
+                # itself is within half a unit of the true value: together, "reproduces the value to that precision")
+                denoted = -val if sign == '-' else val
+
+                def near(x, cell_type):
+                    ulp = Fraction(2) ** max(math.frexp(float(denoted) or 1.0)[1] - (24 if cell_type == 'SINGLE' else 53),
+                                             -149 if cell_type == 'SINGLE' else -1074)      # (subnormal spacing)
+                    return abs(Fraction(x) - denoted) <= ulp
                 back = real_val(text)
                 if back[0] == 'raises':
                     sig = 'val-raises-on-integral-text-beyond-long'
-                elif abs(Fraction(back[2]) - true) * 2 > unit:
+                elif not near(back[2], back[1]):
                     sig = f'{ty.lower()}-val-readback-off'
                 else:
                     rb = real_read(text.strip(), ty)
                     ri = real_input(text, ty)
                     if rb[0] != 'ok' or ri[0] != 'ok':
                         sig = ('exponent-text-rejected-by-read-or-input' if letter else 'plain-text-rejected-by-read-or-input')
-                    elif abs(Fraction(rb[2]) - true) * 2 > unit or abs(Fraction(ri[2]) - true) * 2 > unit:
+                    elif not near(rb[2], ty) or not near(ri[2], ty):
                         sig = f'{ty.lower()}-read-input-readback-off'
                 neg = format_number(-v, TYS[ty])
                 if v != 0 and neg[1:] != text[1:]:
